@@ -390,7 +390,8 @@ def build_from_product_mps_covering(ctx, rng, i):
         # with the pipe of the combined bond legs)
         m = int(rng.integers(2, 5))
         L = 2 * m
-        sites, kind = dense.make_sites(rng, L, str(rng.choice(['spinhalf_Sz', 'spinhalf_parity', 'fermion_parity', 'fermion_N', 'spinhalf'])))
+        # (no fermions here: interleaving fermionic local states needs an operator ordering the constructor does not define)
+        sites, kind = dense.make_sites(rng, L, str(rng.choice(['spinhalf_Sz', 'spinhalf_parity', 'spinhalf', 'spin1_Sz', 'boson_N'])))
         shift = int(rng.integers(1, m + 1))
         left = list(range(m))
         right = [m + (k + shift) % m for k in range(m)]
@@ -399,6 +400,8 @@ def build_from_product_mps_covering(ctx, rng, i):
     else:
         sites, kind = dense.make_sites(rng, L, str(rng.choice(kinds)))
         perm = [int(x) for x in rng.permutation(L)]
+        if any(dense.is_fermionic(s_) for s_ in sites):
+            perm = list(range(L))  # fermions: contiguous local states only (interleaving would need a fermionic operator ordering)
         groups = []
         k = 0
         while k < L:
